@@ -31,6 +31,37 @@ def fin(a: frozenset, z: list = None):
 
 t = ("p", "q")
 '''
+# the same properties in a module where every selected name is *shadowed* by an earlier node of another kind: a module-level annotated
+# variable named like the class attribute, a class attribute named like the parameter of a method declared below it
+INPUT_SRC_SHADOW = '''a: str = "module level"
+z: int = 0
+
+
+class In(object):
+    """In."""
+
+    a: float = 9.5
+    b: complex
+    z: bytes = b"zz"
+    p: float = 30.5
+    q: bytearray
+
+    def meth(self, q: memoryview, p: range = None):
+        """meth."""
+        return p
+
+
+def fin(a: frozenset, z: list = None):
+    """fin."""
+    return a
+
+
+t = ("p", "q")
+'''
+INPUTS_SHADOW = [
+    ("In.meth.p", "method_param_default", "p", "range"),
+    ("In.meth.q", "method_param", "q", "memoryview"),
+]
 INPUTS = [
     ("In.a", "attr_value", "a", "float"),
     ("In.b", "attr_novalue", "b", "complex"),
@@ -67,7 +98,8 @@ def output_module(k, n_defaults, lead, kwtail, decoy=False):
     else:
         deco = "    @classmethod\n" if lead == "cls" else ""
         first = '    def first(self, a: frozenset, b: str = "q"):\n        return a\n\n' if decoy else ""
-        src += 'class M(object):\n    """M."""\n\n    w: int = 3\n\n' + first + '%s    def meth(%s):\n        """meth."""\n        return None\n' % (deco, sig)
+        shadow = "    a: bytes = b'm'\n    kw: float = 0.5\n" if decoy else ""  # attributes named like parameters of the method below
+        src += 'class M(object):\n    """M."""\n\n    w: int = 3\n' + shadow + '\n' + first + '%s    def meth(%s):\n        """meth."""\n        return None\n' % (deco, sig)
         fpath = ["M", "meth"]
     src += "\n\ndef after(a: int = 7, b=8):\n    return a\n"
     return src, fpath, names
@@ -87,6 +119,10 @@ def cases(tier, seed):
                         for inp in INPUTS:
                             for wrap in WRAPS:
                                 yield dict(out=dict(k=k, n_defaults=n_defaults, lead=lead, kwtail=kwtail, decoy=decoy), target=tpath, tkind=tkind, input=inp[0], wrap=wrap, eval=False)
+                        if decoy or (k <= 2 and not kwtail):
+                            # shadowed input module: the old inputs again (now preceded by same-named nodes) and the method parameters
+                            for inp in INPUTS + INPUTS_SHADOW:
+                                yield dict(out=dict(k=k, n_defaults=n_defaults, lead=lead, kwtail=kwtail, decoy=decoy), target=tpath, tkind=tkind, input=inp[0], wrap=None, eval=False, shadow=True)
                         yield dict(out=dict(k=k, n_defaults=n_defaults, lead=lead, kwtail=kwtail, decoy=decoy), target=tpath, tkind=tkind, input="t", wrap=None, eval=True)
 
 
@@ -152,7 +188,8 @@ def run(case):
 
     o = case["out"]
     src, fpath, names = output_module(o["k"], o["n_defaults"], o["lead"], o["kwtail"], o.get("decoy", False))
-    inp = next((i for i in INPUTS if i[0] == case["input"]), None)
+    inp = next((i for i in INPUTS + INPUTS_SHADOW if i[0] == case["input"]), None)
+    input_src = INPUT_SRC_SHADOW if case.get("shadow") else INPUT_SRC
     tname = case["target"].split(".")[-1]
     names_equal = bool(inp) and inp[2] in names + ["kw"]
     pos = "n/a"
@@ -162,7 +199,7 @@ def run(case):
     ctx = dict(
         check="sync_properties", in_kind="eval" if case["eval"] else inp[1], out_kind=case["tkind"], wrap=case["wrap"] is not None, lead=o["lead"], pos=pos,
         defaults="none" if o["n_defaults"] == 0 else "all" if o["n_defaults"] == o["k"] else "some", kwtail=o["kwtail"], decoy=o.get("decoy", False),
-        input_name_in_output=names_equal, same_name=bool(inp) and inp[2] == tname,
+        input_name_in_output=names_equal, same_name=bool(inp) and inp[2] == tname, shadowed_input=bool(case.get("shadow")),
     )
     viol = []
 
@@ -176,7 +213,7 @@ def run(case):
     try:
         ip, op = os.path.join(d, "inp.py"), os.path.join(d, "outp.py")
         with open(ip, "wt") as f:
-            f.write(INPUT_SRC)
+            f.write(input_src)
         with open(op, "wt") as f:
             f.write(src)
         try:
@@ -189,7 +226,7 @@ def run(case):
             v("raises", "the selected location is replaced", "%s: %s" % (type(e).__name__, str(e)[:120]), exc=type(e).__name__, output_touched=after_src != src)
             return dict(outcome="raises", transitions=1, violations=viol)
         with open(ip, "rt") as f:
-            if f.read() != INPUT_SRC:
+            if f.read() != input_src:
                 v("input_modified", "input file unchanged", "changed")
         with open(op, "rt") as f:
             after_src = f.read()
@@ -232,8 +269,10 @@ def describe(tier):
         rule="output modules: class Out (2 annotated attributes) + a function (or method with self/cls) with k = 1..{k} parameters, every default-suffix "
         "length 0..k, optional keyword-only tail, surrounded by unrelated definitions; every output location x 5 input properties (class attributes "
         "with/without value, function parameters with/without default; names equal to or different from output names) x wrap template absent/present, "
-        "plus --input-eval of a tuple constant for every location; a case = one sync_properties invocation".format(k=3 if tier == "quick" else 4),
-        bounds=dict(k=3 if tier == "quick" else 4, inputs=[i[0] for i in INPUTS], wraps=WRAPS),
+        "plus --input-eval of a tuple constant for every location; plus a second input module in which every selected name is shadowed by an earlier node of "
+        "another kind (module-level annotated variable named like the class attribute; class attribute named like a parameter of a method below it) with "
+        "method parameters as further inputs; decoy output modules also carry class attributes named like the method's parameters; a case = one sync_properties invocation".format(k=3 if tier == "quick" else 4),
+        bounds=dict(k=3 if tier == "quick" else 4, inputs=[i[0] for i in INPUTS], shadowed_inputs=[i[0] for i in INPUTS + INPUTS_SHADOW], wraps=WRAPS),
         exhaustive=True,
         assumptions=["reference transformer mc/checks/c13.py:apply_reference; the selected node's own default/value is not compared (the text is silent on it)",
                      "comparison is on ASTs: sync_properties re-renders the output file through black"],
